@@ -86,4 +86,8 @@ theorem tie_prepare_order :
 /-- IsCPUNormalizationRatioDifferent uses epsilon 0.01 (`ratioDiff`: more than 1 apart in percent units). -/
 theorem tie_ratio_diff_epsilon : C09.ratioDiffEpsilon = "0.01" := by decide
 
+/-- zone withdrawal (`preUpdateZones`): the early return of prepareForNodeResourceTopology is not taken when the batch
+    items are Reset, and the reset branch of UpdateNRTZoneListIfNeeded writes the zeroed entry back (437c681). -/
+theorem tie_zone_withdrawal : C09.nrtEarlyReturnChecksResets = true ∧ C09.zoneResetWritesBack = true := by decide
+
 end KoordVerif.C09
